@@ -82,6 +82,12 @@ CHECKS = {
             "error/generics) are built inside a #![no_std] crate against nutype without default features; TLC validates the verdicts. The specification "
             "contributes the space and the expected verdict, nothing deeper (labelled as such).",
             "6 C15"),
+    "C05": ("no safe way around the guards",
+            "Design level: TLC checks for every configuration (family x validation x derive set x new_unchecked flag x feature x visibility x const_fn) that "
+            "no item the generator emits offers a bypass capability, and enumerates (configuration, attack) pairs. Structural: the real expansions, recorded by the "
+            "verif_hooks hook and turned into capability records by a syn analyser, are validated by TLC against the same rules. Attack catalogue: every enumerated "
+            "attack program must fail to compile (positive controls must compile). 'For all client programs' is approximated by catalogue + structural argument.",
+            "6 C05"),
     "C09": ("derived Arbitrary is total and yields valid values",
             "Three generator models are model-checked: integers exactly (boundary derivation with token splicing + arbitrary's int_in_range), strings exactly "
             "over character classes (specification, fill, trim/refill loop, constructor), floats as a design model of the scaling/adjust arithmetic; the cases "
@@ -116,10 +122,10 @@ def build():
         "version": 1,
         "setup_cmd": "./setup.sh",
         "hooks": {
-            "guard": "verif_hooks (cargo feature of nutype_macros/nutype; no hook commit yet)",
-            "enable": "features = [\"verif_hooks\"] on the nutype dependency of the generated crates",
+            "guard": "verif_hooks (cargo feature of nutype_macros, forwarded by nutype; off by default)",
+            "enable": "features = [\"verif_hooks\"] on the nutype dependency of the generated crates and NUTYPE_VERIF_TRACE=<file> in the environment of cargo (used by ./check C05)",
             "baseline_off_cmd": "cd /repo && cargo test --workspace --no-fail-fast --offline",
-            "source_commits": [],
+            "source_commits": ["977670d"],
             "add_only": True,
         },
         "engines": [
